@@ -56,7 +56,14 @@ class ExternalImportFilter:
     def _is_internal_import(self, i: Import) -> bool:
         importee = i.importee()
 
-        return importee.startswith(self._root_module_name)
+        if self._root_module_name.endswith("."):
+            return importee.startswith(self._root_module_name)
+
+        # a module is only internal if it is the root module itself or one of its submodules,
+        # not if its name merely starts with the same characters
+        return importee == self._root_module_name or importee.startswith(
+            f"{self._root_module_name}."
+        )
 
     def _is_internal_or_retained_external_import(self, i: Import) -> bool:
         if self._is_internal_import(i):
